@@ -304,9 +304,13 @@ impl<D: DataRef> GGLWEToRef for GGLWE<D> {
 
 impl<D: DataMut> ReaderFrom for GGLWE<D> {
     fn read_from<R: std::io::Read>(&mut self, reader: &mut R) -> std::io::Result<()> {
-        self.base2k = Base2K(reader.read_u32::<LittleEndian>()?);
-        self.dsize = Dsize(reader.read_u32::<LittleEndian>()?);
-        self.data.read_from(reader)
+        // Commit the metadata only once the whole object has been read.
+        let base2k = Base2K(reader.read_u32::<LittleEndian>()?);
+        let dsize = Dsize(reader.read_u32::<LittleEndian>()?);
+        self.data.read_from(reader)?;
+        self.base2k = base2k;
+        self.dsize = dsize;
+        Ok(())
     }
 }
 
